@@ -94,7 +94,8 @@ var longPool = []string{"kubernetes-control-plane-version-to-upgrade-to", "a-rea
 
 var wordPool = []string{"foo", "bar", "baz", "", "a b", "a=b", "k=v=w", "1", "2", "-1", "+5", "010", "1..3", "3..1", "0x10", "1_0",
 	"1.5", "1e3", "1e309", "NaN", "inf", "0x1p-2", " 5", "5 ", "true", "false", "-", "x\ny", "é", "日本語", "hello", "=", "=x", "k=",
-	"9223372036854775807", "-9223372036854775808", "9223372036854775808", "9223372036854775806..9223372036854775807", "a,b", "0.1", "%s", "100%", ":8080", ":", "::1", "/x", "=:y", ":=z", "../src", "a..b"}
+	"9223372036854775807", "-9223372036854775808", "9223372036854775808", "9223372036854775806..9223372036854775807", "a,b", "0.1", "%s", "100%", ":8080", ":", "::1", "/x", "=:y", ":=z", "../src", "a..b",
+	"Key=Val", "ENV=Prod", "A=b", "UPPER", "MiXed=Case=x"}
 
 var envNames = []string{"VH_A", "VH_B", "VH_C", "VH_D"}
 
@@ -306,7 +307,7 @@ func (g *gen) genProgram(c *Case) *progInfo {
 		script = append(script, DefOp{Op: "ro", H: 0})
 		root.ro = true
 	}
-	if g.p(0.04) {
+	if g.p(0.04) || ((g.f.Prop == "C01" || g.f.Prop == "C02") && g.p(0.08)) {
 		script = append(script, DefOp{Op: "mapkeys", H: 0})
 	}
 	if g.p(0.3) {
@@ -908,6 +909,9 @@ func (g *gen) genCase(id int) *Case {
 	c.Reparse = !c.Help && !c.Dispatch && g.p(0.5) || (g.f.Prop == "C06" || g.f.Prop == "C12") && g.p(0.3)
 	if c.Reparse {
 		c.Dispatch, c.Help = false, false
+	}
+	if g.p(0.04) {
+		c.BadWriter = 1 + g.r.Intn(2)
 	}
 	pSet := 0.03
 	if g.f.Prop == "C06" || g.f.Prop == "C01" || g.f.Prop == "C02" || g.f.Prop == "C12" {
